@@ -260,7 +260,7 @@ impl CostModel {
     /// additional details such as the units (kph, hours, etc), which can be
     /// summarized in the serialize_state_info method.
     pub fn serialize_cost(&self, state: &[StateVar]) -> Result<serde_json::Value, CostModelError> {
-        let mut state_variable_costs = self
+        let feature_costs = self
             .feature_indices
             .iter()
             .map(move |(name, idx)| {
@@ -285,11 +285,12 @@ impl CostModel {
                 let cost = rate.map_value(*state_var);
                 Ok((name.clone(), cost))
             })
-            .collect::<Result<HashMap<String, Cost>, CostModelError>>()?;
+            .collect::<Result<Vec<(String, Cost)>, CostModelError>>()?;
 
-        let total_cost = state_variable_costs
-            .values()
-            .fold(Cost::ZERO, |a, b| a + *b);
+        // sum in feature order: the iteration order of a HashMap differs from run to run and
+        // floating point addition is not associative
+        let total_cost = feature_costs.iter().fold(Cost::ZERO, |a, (_, b)| a + *b);
+        let mut state_variable_costs: HashMap<String, Cost> = feature_costs.into_iter().collect();
         state_variable_costs.insert(String::from("total_cost"), total_cost);
 
         let result = json!(state_variable_costs);
